@@ -77,6 +77,9 @@ fn user_rows(d: usize, p: PosPattern) -> Vec<Row> {
         with_pos(Row::new("共", 1, 1, 5000 + d as i32, P_NOUN).reading(&format!("キョウ{}", d))),        // U4: homograph in every dictionary
         with_pos(Row::new(&format!("{}京", a), 1, 1, -500, P_NOUN).splits("C", "*", "U0/1")),               // U5: B units only
         with_pos(Row::new(&format!("{}単", a), 1, 1, -500, P_NOUN).splits("C", "U0", &format!("{},{},エー{}", a, pos.join(","), d)).structure("U0")), // U6: lists of one reference
+        // U7: a homograph of the system word 東 (same part of speech) that is read like its key: the inline
+        // reference `東,...,ヒガシ` of U3 still means the system word
+        Row::new("東", 1, 1, 9000, P_NOUN).reading("東"),
     ]
 }
 
@@ -439,5 +442,73 @@ pub fn main(tier: Tier, replay: Option<String>) -> i32 {
         Some(120),
         json!({"stacks": n, "heights": [14, 15]}),
     ));
+    // the same user-dictionary file listed several times in the configuration: every listing is a
+    // layer of its own, numbered by its position
+    {
+        let e3 = env.clone();
+        let patterns: Vec<Vec<usize>> = vec![vec![1, 1], vec![1, 2, 1], vec![2, 1, 1, 2], (0..14).map(|i| 1 + i % 2).collect(), (0..15).map(|i| 1 + i % 2).collect()];
+        jobs.push(job(
+            CaseSpace {
+                label: "layers/one-file-listed-several-times".into(),
+                cases: patterns,
+                check_fn: Box::new(move |pat: &Vec<usize>| {
+                    let mut o = Outcome::new();
+                    o.evaluations = 1;
+                    o.nontrivial = true;
+                    let ctx = format!("userDict list {:?} (numbers = two different files)", pat);
+                    let r = catch(|| -> Result<Dict, String> {
+                        let plugins = plugins_for(0);
+                        let base = load(&e3.dir, &bare_plugins(&pos_of(P_NOUN)), e3.system.clone(), vec![])?;
+                        let files: Vec<Vec<u8>> = vec![compile_user(&base, &rows_to_csv(&user_rows(1, PosPattern::Own)))?, compile_user(&base, &rows_to_csv(&user_rows(2, PosPattern::SystemOnly)))?];
+                        let users: Vec<Vec<u8>> = pat.iter().map(|&k| files[k - 1].clone()).collect();
+                        Ok(Arc::new(load_from_files(&e3.dir, &plugins, &e3.system, &users, "c12rep")?))
+                    });
+                    match r {
+                        Err(p) => o.fail(Failure::panic(&ctx, &p)),
+                        Ok(Err(e)) => {
+                            if pat.len() <= 14 {
+                                o.fail(Failure::new("load-error", format!("{}: {}", ctx, e)));
+                            }
+                        }
+                        Ok(Ok(dict)) => {
+                            if pat.len() > 14 {
+                                o.fail(Failure::new("too-many-user-dictionaries-accepted", format!("{}: {} entries were accepted", ctx, pat.len())));
+                                return o;
+                            }
+                            // the key shared by every dictionary is found once per listing
+                            let mut got: Vec<(u8, u32)> = dict.lexicon().lookup("共".as_bytes(), 0).map(|e| (e.word_id.dic(), e.word_id.word())).collect();
+                            got.sort();
+                            let mut exp: Vec<(u8, u32)> = vec![(0, 3)];
+                            for d in 1..=pat.len() {
+                                exp.push((d as u8, 4));
+                            }
+                            if got != exp {
+                                o.fail(Failure::new("homograph-lookup", format!("{}: lookup of the shared key returns {:?}, expected {:?}", ctx, got, exp)));
+                            }
+                            // each listing answers with the words of its own file
+                            for (i, &k) in pat.iter().enumerate() {
+                                let d = i + 1;
+                                let rows = user_rows(k, if k == 1 { PosPattern::Own } else { PosPattern::SystemOnly });
+                                match word_fields(&dict, WordId::new(d as u8, 0)) {
+                                    Ok((pos, fields)) => {
+                                        if fields[0] != rows[0].surface || pos != rows[0].pos.to_vec() {
+                                            o.fail(Failure::new("user-word-fields", format!("{}: word ({}, 0) reports {:?} / {:?}, file {} declares {:?} / {:?}", ctx, d, fields[0], pos, k, rows[0].surface, rows[0].pos)));
+                                        }
+                                    }
+                                    Err(e) => o.fail(Failure::new("user-word-unreadable", format!("{}: word ({}, 0): {}", ctx, d, e))),
+                                }
+                            }
+                        }
+                    }
+                    o.observe(pat);
+                    o
+                }),
+                describe_fn: Box::new(|p: &Vec<usize>| json!({"user_dict_list": p})),
+            },
+            Strategy::Bfs,
+            Some(120),
+            json!({"lists": 5}),
+        ));
+    }
     drive(rep, jobs, replay)
 }
